@@ -361,6 +361,7 @@ class Renderer:
                     self.t("static")
                 if dim is not None:
                     if dim == ("star",):
+                        self.nametok[id(dim)] = len(self.toks)
                         self.t("*")
                     else:
                         self.E(dim, L_ASG)
@@ -798,7 +799,8 @@ class Expect:
             if dim is None:
                 d = None
             elif dim == ("star",):
-                d = self.N("ID", key, ("name", "*"))
+                # the ID('*') of an unspecified-size VLA is spelled by the '*' token
+                d = self.N("ID", ("@key", ("arr", id(dv))), ("name", "*"), exact=id(dim))
             else:
                 d = self.expr(dim)
             return self.N("ArrayDecl", key, ("type", inner), ("dim", d), ("dim_quals", dq))
